@@ -269,7 +269,9 @@ impl InfixOpManager {
             return (-1, -1);
         }
         let config = ans.unwrap();
-        let l_bp = config.0;
+        // binding powers live on a doubled scale so that the +-1 that encodes the
+        // associativity never collides with the neighbouring precedence level
+        let l_bp = config.0 * 2;
         let mut r_bp = 0;
         if config.2 == InfixOpAssociativity::LEFT {
             r_bp = l_bp + 1;
